@@ -2,8 +2,9 @@
 
 Proof: lean/GIVerif/Props/C16.lean over the model lean/GIVerif/Model/Order.lean (sorted
 emission is a function of the set of siblings; get_main_position is invariant under every
-iteration order of the position set; typedef/struct order; block dictionary; type resolution
-under permuted includes).
+iteration order of the position set; typedef/struct order; block dictionary; the order of
+_parsed_includes -- hence type resolution -- is invariant under every iteration order of the
+include sets; the introspectable fixed point is invariant under the walk order).
 
 Tie: (1) translators/gen_order.py re-reads every sorted()/for/set iteration of the sources;
 (2) correspondence of the model with the REAL code: str ordering, sorted(set(..)), Include
@@ -52,12 +53,10 @@ HERE = os.path.dirname(os.path.abspath(__file__))
 
 # Failing inputs of the UNCHANGED tree that are reported as findings (see the final report /
 # known_findings.json once the integrator moves them there).  Key = exact failing class.
-PENDING_FINDINGS = {
-    'include-set-order/ambiguous-ctype':
-        'GIR depends on PYTHONHASHSEED / cache history when a C type can be resolved in two transitively '
-        'included namespaces: Transformer._parse_include iterates the `includes` SET of a dependency unsorted, '
-        'so the order of _parsed_includes (first match wins in _resolve_type_from_ctype) is hash order',
-}
+# (include-set-order/ambiguous-ctype was repaired by /repo 5d8d03e: inputs whose C types can be
+# resolved in two transitively included namespaces are judged byte for byte like all others;
+# corpus/C16/ambiguous_dep.json is the regression case.)
+PENDING_FINDINGS = {}
 
 GIR_HEAD = ('<?xml version="1.0"?>\n<repository version="1.2" xmlns="http://www.gtk.org/introspection/core/1.0" '
             'xmlns:c="http://www.gtk.org/introspection/c/1.0" xmlns:glib="http://www.gtk.org/introspection/glib/1.0">\n')
@@ -1530,7 +1529,7 @@ def corr_includes(ctx, cnt, rng, scratch):
             for r_ in roots:
                 tr.register_include_uninstalled(os.path.join(d, '%s-1.0.gir' % r_))
             order = list(tr._parsed_includes)
-            iters = [[nm, [i.name for i in nsobj.includes]] for nm, nsobj in tr._parsed_includes.items()]
+            iters = [[nm, [[i.name, i.version] for i in nsobj.includes]] for nm, nsobj in tr._parsed_includes.items()]
             deps = [{'name': nsobj.name, 'prefixes': list(nsobj.identifier_prefixes), 'names': list(nsobj.names),
                      'ctypes': [[ct, node.name] for ct, node in nsobj.ctypes.items() if ct is not None]}
                     for nsobj in tr._parsed_includes.values()]
@@ -1551,7 +1550,9 @@ def corr_includes(ctx, cnt, rng, scratch):
     res = ctx.driver.batch(reqs)
     pos = 0
     for ci, roots, iters, order, idents, resolved in pending:
-        mod_order = res[pos]
+        mod_order = res[pos]['order']
+        if res[pos]['old'] != res[pos]['order']:
+            cnt.hit('includes:set-iteration-order-would-have-mattered(pre-5d8d03e)')
         mod_res = res[pos + 1:pos + 1 + len(idents)]
         pos += 1 + len(idents)
         done += 1
@@ -1684,12 +1685,6 @@ def corr_fixpoint(ctx, cnt, rng, inputs, girroot):
 # ---------------------------------------------------------------------------------------------
 # the metamorphic validation on the real pipeline
 # ---------------------------------------------------------------------------------------------
-def normalise_ambiguous(gir, amb):
-    for a in amb:
-        gir = gir.replace('"%s"' % a, '"<AMBIGUOUS>.Thing"')
-    return gir
-
-
 def first_diff(a, b):
     la, lb = a.split('\n'), b.split('\n')
     for i, (x, y) in enumerate(zip(la, lb)):
@@ -1813,14 +1808,8 @@ def metamorphic(ctx, cnt, pool, inputs, seeds, nperm, rng, samples):
                 if kind in ('blocks', 'files') and inp.get('dup_blocks') and r.get('dup_warned') and base.get('dup_warned'):
                     cnt.hit('outside:duplicate-identifier-blocks(warned)')
                     continue
-                amb = inp.get('ambiguous') or []
                 replay = {'kind': 'meta', 'input': inp, 'variant': kind, 'variant_input': v, 'seed': seed,
                           'base_seed': seeds[0], 'first_diff': first_diff(base_out, out)}
-                if amb and normalise_ambiguous(out, amb) == normalise_ambiguous(base_out, amb):
-                    cnt.hit('finding:include-set-order')
-                    ctx.report_failure('include-set-order/ambiguous-ctype',
-                                       PENDING_FINDINGS['include-set-order/ambiguous-ctype'], replay)
-                    continue
                 if invalid_c and not out.startswith('RAISED') and not base_out.startswith('RAISED') \
                         and signature(out) == signature(base_out):
                     # a declaration order no C front end delivers: the content of elements is outside
